@@ -12,11 +12,13 @@ type Case struct {
 	Dir    string     `json:"dir"`
 }
 
-func col(a, b, g, r uint8) ssa.Value { return ssa.Value{Kind: "c", C: ssa.Color{A: a, B: b, G: g, R: r}} }
-func flt(f float64) ssa.Value        { return ssa.Value{Kind: "f", F: f} }
-func num(i int) ssa.Value            { return ssa.Value{Kind: "i", I: i} }
-func boo(b bool) ssa.Value           { return ssa.Value{Kind: "b", B: b} }
-func str(s string) ssa.Value         { return ssa.Value{Kind: "s", S: s} }
+func col(a, b, g, r uint8) ssa.Value {
+	return ssa.Value{Kind: "c", C: ssa.Color{A: a, B: b, G: g, R: r}}
+}
+func flt(f float64) ssa.Value { return ssa.Value{Kind: "f", F: f} }
+func num(i int) ssa.Value     { return ssa.Value{Kind: "i", I: i} }
+func boo(b bool) ssa.Value    { return ssa.Value{Kind: "b", B: b} }
+func str(s string) ssa.Value  { return ssa.Value{Kind: "s", S: s} }
 
 // attrValues: per attribute the baseline value first (pairwise distinct among same-typed columns,
 // so that a cell taken from the wrong column shows), then the alternatives. Floats are exactly
@@ -54,8 +56,38 @@ var blocks = []string{"", `{\pos(400,570)}`, `{\i1}`, `{\c&HFF00FF&\fnArial, Bol
 var texts = []string{"x", "a b", "a,b", ",", "a: b", "7", "é", "\U0001F600", " lead", "trail ", `a\hb`, "[x]", ";s", "", "0:00:01.00", "Marked=1"}
 
 type profile struct {
-	thorough bool
-	full     bool // explore every dimension (ball); false: fixed baseline except what the caller varies
+	thorough     bool // <=3 styles / events / lines
+	reducedPerms bool // column orders: adjacent transpositions, rotations, reversal (instead of all transpositions)
+}
+
+// nPermsR / permR: the reduced family — identity, adjacent transpositions, rotations, reversal.
+func nPermsR(n int) int {
+	if n < 2 {
+		return 1
+	}
+	return 1 + (n - 1) + (n - 1) + 1
+}
+
+func permR(n, k int) []int {
+	p := make([]int, n)
+	for i := range p {
+		p[i] = i
+	}
+	switch {
+	case k == 0 || n < 2:
+	case k <= n-1:
+		p[k-1], p[k] = p[k], p[k-1]
+	case k <= 2*(n-1):
+		r := k - (n - 1)
+		for i := range p {
+			p[i] = (i + r) % n
+		}
+	default:
+		for i := range p {
+			p[i] = n - 1 - i
+		}
+	}
+	return p
 }
 
 // perms returns the permutation number k of n columns: 0 identity, then every transposition, then
@@ -303,7 +335,11 @@ func genEvents(c *explore.C, d *ssa.Doc, p profile) {
 	}
 }
 
-func genRender(c *explore.C, d ssa.Doc) ssa.Render {
+func genRender(c *explore.C, d ssa.Doc, p profile) ssa.Render {
+	np, pm := nPerms, perm
+	if p.reducedPerms {
+		np, pm = nPermsR, permR
+	}
 	r := ssa.DefaultRender(d)
 	r.EOL = explore.Pick(c, "r.eol", "\n", "\r\n", "\r")
 	r.BOM = c.Bool("r.bom")
@@ -323,7 +359,7 @@ func genRender(c *explore.C, d ssa.Doc) ssa.Render {
 	}
 	if len(d.Styles) > 0 {
 		n := 1 + len(d.StyleAttrs)
-		r.StyleOrder = perm(n, c.Choose("r.styleorder", nPerms(n)))
+		r.StyleOrder = pm(n, c.Choose("r.styleorder", np(n)))
 		for _, a := range d.StyleAttrs {
 			if a == "Strikeout" {
 				r.StrikeOutCap = c.Bool("r.strikeoutcap")
@@ -333,7 +369,7 @@ func genRender(c *explore.C, d ssa.Doc) ssa.Render {
 		r.FloatForm = c.Choose("r.floatform", 2)
 	}
 	n := d.NEventCols()
-	r.EventOrder = perm(n, c.Choose("r.eventorder", nPerms(n)))
+	r.EventOrder = pm(n, c.Choose("r.eventorder", np(n)))
 	r.FormatSep = explore.Pick(c, "r.formatsep", ", ", ",", " , ")
 	r.Hours2 = c.Bool("r.hours2")
 	r.MarginPad = c.Bool("r.marginpad")
@@ -358,11 +394,11 @@ func genBall(c *explore.C, p profile) Case {
 	}
 	genStyles(c, &d, ms)
 	genEvents(c, &d, p)
-	return Case{Doc: d, Render: genRender(c, d)}
+	return Case{Doc: d, Render: genRender(c, d, p)}
 }
 
-// genCoreStyles: full product — 1..2 styles over Name + {Bold, PrimaryColour, Fontsize, Alignment}
-// subsets, every permutation of the columns, both versions, every colour radix.
+// genCoreStyles: full product — 1..2 styles over Name + every subset of {Bold, PrimaryColour, Fontsize,
+// Alignment}, every permutation of the columns, both versions, hexadecimal and decimal colours.
 func genCoreStyles(c *explore.C) Case {
 	var d ssa.Doc
 	d.V4Plus = !c.Bool("v4")
@@ -376,26 +412,28 @@ func genCoreStyles(c *explore.C) Case {
 			d.StyleAttrs = append(d.StyleAttrs, a)
 		}
 	}
-	ns := explore.Pick(c, "style.n", 1, 2)
-	for i := 0; i < ns; i++ {
-		s := ssa.Style{Name: []string{"Default", "B"}[i], Attrs: map[string]ssa.Value{}}
+	s := ssa.Style{Name: "Default", Attrs: map[string]ssa.Value{}}
+	for _, a := range d.StyleAttrs {
+		s.Attrs[a] = explore.Pick(c, "style."+a, attrValues[a][:2]...)
+	}
+	d.Styles = append(d.Styles, s)
+	if c.Bool("style.second") {
+		s := ssa.Style{Name: "B", Attrs: map[string]ssa.Value{}}
 		for _, a := range d.StyleAttrs {
-			s.Attrs[a] = explore.Pick(c, "style."+a, attrValues[a][:2]...)
+			s.Attrs[a] = attrValues[a][len(attrValues[a])-1]
 		}
 		d.Styles = append(d.Styles, s)
 	}
 	d.EventCols = []string{"LM", "Style"}
-	d.Events = []ssa.Event{{Start: 100, End: 200, Style: explore.Pick(c, "event.style", "Default", "*Default"), Lines: [][]ssa.Run{{{Text: "x"}}}}}
+	d.Events = []ssa.Event{{Start: 100, End: 200, Style: "Default", Lines: [][]ssa.Run{{{Text: "x"}}}}}
 	r := ssa.DefaultRender(d)
 	n := 1 + len(d.StyleAttrs)
 	r.StyleOrder = lexPerm(n, c.Choose("r.styleorder", fact(n)))
-	r.Radix = c.Choose("r.radix", 5)
+	r.Radix = explore.Pick(c, "r.radix", 0, 3)
 	return Case{Doc: d, Render: r}
 }
 
-// genCoreEvents: full product — 1..2 events, columns {Layer/Marked, Start, End, Style, Name} in
-// every order, text shapes of <=2 lines x <=2 runs with blocks and commas, break kinds, time form, EOL.
-func genCoreEvents(c *explore.C) Case {
+func coreDoc(c *explore.C) ssa.Doc {
 	var d ssa.Doc
 	d.V4Plus = !c.Bool("v4")
 	d.Info.Str = map[string]string{"ScriptType": "v4.00"}
@@ -406,45 +444,68 @@ func genCoreEvents(c *explore.C) Case {
 	d.StyleAttrs = []string{"Fontname", "Bold"}
 	d.Styles = []ssa.Style{{Name: "Default", Attrs: map[string]ssa.Value{"Fontname": str("Arial"), "Bold": boo(false)}}}
 	d.EventCols = []string{"LM", "Style", "Name"}
-	ne := explore.Pick(c, "event.n", 1, 2)
-	for i := 0; i < ne; i++ {
-		e := ssa.Event{Start: 100 + int64(i)*1000, End: 250 + int64(i)*1000, Name: "Cher"}
-		if d.V4Plus {
-			e.Layer = explore.Pick(c, "event.layer", 0, 5)
-		} else {
-			e.Marked = c.Bool("event.marked")
-		}
-		e.Style = explore.Pick(c, "event.style", "Default", "*Default", "")
-		nl := explore.Pick(c, "event.nlines", 1, 2)
-		for l := 0; l < nl; l++ {
-			var line []ssa.Run
-			nr := explore.Pick(c, "event.nruns", 1, 2)
-			for r := 0; r < nr; r++ {
-				line = append(line, ssa.Run{Block: explore.Pick(c, "event.block", "", `{\i1}`), Text: explore.Pick(c, "event.text", "x", "a, b", "7")})
-			}
-			e.Lines = append(e.Lines, line)
-		}
-		d.Events = append(d.Events, e)
+	return d
+}
+
+// genCoreEvents: full product — one event, columns {Layer/Marked, Start, End, Style, Name} in every
+// order, layer/marked values, style reference forms, both versions, time form, EOL kind; text with a comma.
+func genCoreEvents(c *explore.C) Case {
+	d := coreDoc(c)
+	e := ssa.Event{Start: 100, End: 250, Name: "Cher", Lines: [][]ssa.Run{{{Text: "a, b"}}}}
+	if d.V4Plus {
+		e.Layer = explore.Pick(c, "event.layer", 0, 5)
+	} else {
+		e.Marked = c.Bool("event.marked")
 	}
+	e.Style = explore.Pick(c, "event.style", "Default", "*Default", "")
+	d.Events = append(d.Events, e)
 	r := ssa.DefaultRender(d)
 	n := d.NEventCols()
 	r.EventOrder = lexPerm(n, c.Choose("r.eventorder", fact(n)))
-	r.Breaks = c.Choose("r.breaks", 2)
 	r.Hours2 = c.Bool("r.hours2")
 	r.EOL = explore.Pick(c, "r.eol", "\n", "\r\n", "\r")
 	return Case{Doc: d, Render: r}
 }
 
-// genCoreInfo: full product — every subset of a 6-field representative set, 0..2 comments, field order.
+// genCoreText: full product — text shapes of <=2 lines x <=2 runs x {no block, block} x 3 texts,
+// break kind, customary and reversed column order.
+func genCoreText(c *explore.C) Case {
+	d := coreDoc(c)
+	e := ssa.Event{Start: 100, End: 250, Name: "Cher", Style: "Default"}
+	nl := explore.Pick(c, "event.nlines", 1, 2)
+	for l := 0; l < nl; l++ {
+		var line []ssa.Run
+		nr := explore.Pick(c, "event.nruns", 1, 2)
+		for r := 0; r < nr; r++ {
+			line = append(line, ssa.Run{Block: explore.Pick(c, "event.block", "", `{\i1}`), Text: explore.Pick(c, "event.text", "x", "a, b", "7")})
+		}
+		e.Lines = append(e.Lines, line)
+	}
+	d.Events = append(d.Events, e)
+	r := ssa.DefaultRender(d)
+	if c.Bool("r.reversed") {
+		n := d.NEventCols()
+		for i := range r.EventOrder {
+			r.EventOrder[i] = n - 1 - i
+		}
+	}
+	if nl > 1 {
+		r.Breaks = c.Choose("r.breaks", 2)
+	}
+	return Case{Doc: d, Render: r}
+}
+
+// genCoreInfo: full product — every subset of a 6-field representative set, 0..2 comments, field
+// order, comment position, Timer forms, junk lines, EOL kind.
 func genCoreInfo(c *explore.C) Case {
 	var d ssa.Doc
-	d.V4Plus = true
 	d.Info.Str = map[string]string{}
 	d.Info.Int = map[string]int{}
 	if c.Bool("info.Title") {
 		d.Info.Str["Title"] = "SSA test"
 	}
 	if !c.Bool("info.ScriptType") {
+		d.V4Plus = true
 		d.Info.Str["ScriptType"] = "v4.00+"
 	}
 	if c.Bool("info.Collisions") {
@@ -467,9 +528,13 @@ func genCoreInfo(c *explore.C) Case {
 	d.Events = []ssa.Event{{Start: 100, End: 200, Lines: [][]ssa.Run{{{Text: "x"}}}}}
 	r := ssa.DefaultRender(d)
 	r.InfoReverse = c.Bool("r.inforeverse")
-	r.CommentsLast = c.Bool("r.commentslast")
-	r.TimerForm = c.Choose("r.timer", 3)
-	r.JunkInfo = c.Choose("r.junkinfo", 5)
-	r.EOL = explore.Pick(c, "r.eol", "\n", "\r\n", "\r")
+	if n > 0 {
+		r.CommentsLast = c.Bool("r.commentslast")
+	}
+	if d.Info.Timer != nil {
+		r.TimerForm = c.Choose("r.timer", 3)
+	}
+	r.JunkInfo = c.Choose("r.junkinfo", 3)
+	r.EOL = explore.Pick(c, "r.eol", "\n", "\r\n")
 	return Case{Doc: d, Render: r}
 }
